@@ -316,6 +316,18 @@ use self::tfu::*;
 //@end
 
 // ---- the function under contract ----------------------------------------------------------------------
+// D11 (fixed in /repo): the index of the next vehicle or dummy; refuses when all 2^16 indices have been handed out.
+// `//@item?`: on a tree without this function (the unfixed code casts `self.vehicle_counter as Idx`) the item is skipped
+// and the obligations fresh_dummy_id / ids_stay_valid / refuses_instead_of_reusing_an_id of remove_segment fail.
+//@item? solution/src/schedule/modifications.rs Schedule::next_free_idx
+//@retname r
+//@fmt-nonempty
+//@sig
+    ensures
+        vehicle_counter <= 0xffff ==> r == Ok::<Idx, String>(vehicle_counter as u16),
+        vehicle_counter > 0xffff ==> r is Err, // @obl C13.next_free_idx.refuses_when_all_indices_are_used
+//@end
+
 //@item solution/src/schedule/modifications.rs Schedule::remove_segment
 //@retname r
 //@sig
@@ -323,8 +335,6 @@ use self::tfu::*;
         self.rs_ok(),
         // the segment's ends are nodes of the network
         self.network.has(segment.start), self.network.has(segment.end),
-        // A-idwidth: ids are 16 bit (`self.vehicle_counter as Idx`): fewer than 2^16 ids handed out so far
-        self.vehicle_counter <= 0xffff,
         // A-counter (magnitude)
         self.shrunk_counter_ok(segment, vehicle_idx),
         // caller-side: the precondition of the formation bookkeeping for the removed nodes (u32 magnitudes of the
@@ -341,36 +351,39 @@ use self::tfu::*;
             ==> r == spec_replace_by_dummy(self, vehicle_idx), // @obl C13.remove_segment.whole_tour_delegates
         // otherwise (Tour::remove's contract does not say when the shrunk tour is None): either it delegated, or
         // the provider keeps a tour and the operation succeeds with exactly the documented effect
-        self.removes(segment, vehicle_idx) && r != spec_replace_by_dummy(self, vehicle_idx) ==> r is Ok, // @obl C13.remove_segment.ok_when_tour_accepts
-        self.removes(segment, vehicle_idx) && r != spec_replace_by_dummy(self, vehicle_idx) ==>
+        self.removes(segment, vehicle_idx) && r != spec_replace_by_dummy(self, vehicle_idx) && self.id_left(segment, vehicle_idx) ==> r is Ok, // @obl C13.remove_segment.ok_when_tour_accepts
+        // D11: ids are 16 bit and never reused: when all 2^16 have been handed out and the removed trips would need a new
+        // dummy tour, the modification is refused (the unfixed code wrapped around and overwrote the tour stored under id 0)
+        self.removes(segment, vehicle_idx) && r != spec_replace_by_dummy(self, vehicle_idx) && !self.id_left(segment, vehicle_idx) ==> r is Err, // @obl C13.remove_segment.refuses_instead_of_reusing_an_id
+        self.removes(segment, vehicle_idx) && r != spec_replace_by_dummy(self, vehicle_idx) && r is Ok ==>
             r->Ok_0.vehicles@ == self.vehicles@ && r->Ok_0.vehicle_ids_grouped_and_sorted@ == self.vehicle_ids_grouped_and_sorted@
             && r->Ok_0.network == self.network, // @obl C13.remove_segment.vehicle_set_unchanged
-        self.removes(segment, vehicle_idx) && r != spec_replace_by_dummy(self, vehicle_idx) ==>
+        self.removes(segment, vehicle_idx) && r != spec_replace_by_dummy(self, vehicle_idx) && r is Ok ==>
             self.provider_shrunk(segment, vehicle_idx, r->Ok_0.tours@), // @obl C13.remove_segment.provider_loses_exactly_segment
-        self.removes(segment, vehicle_idx) && r != spec_replace_by_dummy(self, vehicle_idx) ==>
+        self.removes(segment, vehicle_idx) && r != spec_replace_by_dummy(self, vehicle_idx) && r is Ok ==>
             self.other_tours_untouched(vehicle_idx, r->Ok_0.tours@), // @obl C13.remove_segment.other_tours_untouched
-        self.removes(segment, vehicle_idx) && r != spec_replace_by_dummy(self, vehicle_idx)
+        self.removes(segment, vehicle_idx) && r != spec_replace_by_dummy(self, vehicle_idx) && r is Ok
             && has_service(&self.network, self.removed_nodes(segment, vehicle_idx)) ==>
             self.trips_handed_back(self.removed_nodes(segment, vehicle_idx), r->Ok_0.dummy_tours@, r->Ok_0.dummy_ids_sorted@), // @obl C13.remove_segment.removed_trips_in_new_dummy_tour
-        self.removes(segment, vehicle_idx) && r != spec_replace_by_dummy(self, vehicle_idx)
+        self.removes(segment, vehicle_idx) && r != spec_replace_by_dummy(self, vehicle_idx) && r is Ok
             && has_service(&self.network, self.removed_nodes(segment, vehicle_idx)) ==>
             r->Ok_0.vehicle_counter == self.vehicle_counter + 1, // @obl C13.remove_segment.fresh_dummy_id
-        self.removes(segment, vehicle_idx) && r != spec_replace_by_dummy(self, vehicle_idx)
+        self.removes(segment, vehicle_idx) && r != spec_replace_by_dummy(self, vehicle_idx) && r is Ok
             && !has_service(&self.network, self.removed_nodes(segment, vehicle_idx)) ==>
             r->Ok_0.dummy_tours@ == self.dummy_tours@ && r->Ok_0.dummy_ids_sorted@ == self.dummy_ids_sorted@
             && r->Ok_0.vehicle_counter == self.vehicle_counter, // @obl C13.remove_segment.no_trip_no_dummy
-        self.removes(segment, vehicle_idx) && r != spec_replace_by_dummy(self, vehicle_idx) ==>
+        self.removes(segment, vehicle_idx) && r != spec_replace_by_dummy(self, vehicle_idx) && r is Ok ==>
             self.formations_follow(self.removed_nodes(segment, vehicle_idx), vehicle_idx, r->Ok_0.train_formations@), // @obl C13.remove_segment.formations_elsewhere_untouched
         // C10: the ids stay valid (in particular every dummy id is below the counter: the next id is fresh again)
-        self.removes(segment, vehicle_idx) && r != spec_replace_by_dummy(self, vehicle_idx) ==> r->Ok_0.ids_ok(), // @obl C10.remove_segment.ids_stay_valid
+        self.removes(segment, vehicle_idx) && r != spec_replace_by_dummy(self, vehicle_idx) && r is Ok ==> r->Ok_0.ids_ok(), // @obl C10.remove_segment.ids_stay_valid
         // C09: unserved passengers, costs, depot usage; C15 / C10: rotation cycles
-        self.removes(segment, vehicle_idx) && r != spec_replace_by_dummy(self, vehicle_idx) ==>
+        self.removes(segment, vehicle_idx) && r != spec_replace_by_dummy(self, vehicle_idx) && r is Ok ==>
             self.unserved_follow(self.removed_nodes(segment, vehicle_idx), vehicle_idx, r->Ok_0.unserved_passengers), // @obl C09.remove_segment.unserved_passengers_delta_exact
-        self.removes(segment, vehicle_idx) && r != spec_replace_by_dummy(self, vehicle_idx) ==>
+        self.removes(segment, vehicle_idx) && r != spec_replace_by_dummy(self, vehicle_idx) && r is Ok ==>
             r->Ok_0.costs == self.costs + r->Ok_0.tours@[vehicle_idx].costs - self.tours@[vehicle_idx].costs, // @obl C09.remove_segment.costs_follow_tour
-        self.removes(segment, vehicle_idx) && r != spec_replace_by_dummy(self, vehicle_idx) ==>
+        self.removes(segment, vehicle_idx) && r != spec_replace_by_dummy(self, vehicle_idx) && r is Ok ==>
             usage_exact(r->Ok_0.depot_usage@, &self.network, r->Ok_0.vehicles@, r->Ok_0.tours@), // @obl C09.remove_segment.depot_usage_exact
-        self.removes(segment, vehicle_idx) && r != spec_replace_by_dummy(self, vehicle_idx) ==>
+        self.removes(segment, vehicle_idx) && r != spec_replace_by_dummy(self, vehicle_idx) && r is Ok ==>
             self.transitions_follow(vehicle_idx, r->Ok_0.next_period_transitions@, r->Ok_0.maintenance_violation, r->Ok_0.vehicles@, r->Ok_0.tours@), // @obl C10.remove_segment.transitions_follow_new_tours
 //@first
         hide(Schedule::rs_ok);
